@@ -9,6 +9,7 @@ CONSTANTS
   InitStores <- ValStores
   PublishAfterUnlock = FALSE
   CreatedRevalidated = TRUE
+  SubSer = TRUE
 VIEW ViewNoHist
 INVARIANTS TypeOK CommitValid EffectOnce LoserCodes Converged
 CHECK_DEADLOCK FALSE
